@@ -199,6 +199,8 @@ def r2_arithmetic(ctx):
                 continue
             sp = _region_value(ctx, es, sps, _vals(a, b))
             val = sp.env.get('to_stage')
+            if val is None:
+                raise AnalysisError(f'{es.loc}: export_string has no local `to_stage` (the stage window lives in another object): not followed')
             val = G.substitute(val, _locals(es)) if val is not None else None
             got = _norm_shifted(val, shift) if val is not None else None
             want = f'index[1*{B}]' if (b is not None and b <= L0 - 1) else affine(ast.parse(f'len({STG}) - 1', mode='eval').body).key()
@@ -294,6 +296,9 @@ def r3_index(ctx):
     apps = [n for n in walk_local(run_.node) if isinstance(n, ast.Call) and src(n.func) == f'{idx}.append']
     ctx.expect_count('R3', 'appends to the measure index', len(apps), 1)
     col_loops = [n for n in walk_local(run_.node) if isinstance(n, ast.For) and 'enumerate(row)' in src(n.iter)]
+    if not col_loops:
+        raise AnalysisError(f'{run_.loc}: Importer.run has no loop over the cells of a row (the cells are imported by a helper called from an '
+                            f'expression): not followed')
     for a in apps:
         at = f'{run_.module.relpath}:{a.lineno}'
         guard, g_size = None, None
